@@ -287,6 +287,32 @@ def nonzero(a):
     return tuple(i.view(SymArray) for i in _np.nonzero(a.view(_np.ndarray)))
 
 
+@override("searchsorted")
+def searchsorted(a, v, side="left", sorter=None):
+    """insertion index into a sorted 1-d array: number of elements < v (left) or <= v (right)"""
+    A = _A(a)
+    if sorter is not None:
+        raise HarnessError("searchsorted with a sorter is not modelled")
+    if not is_sym(A) and not is_sym(v):
+        return deep_wrap(_np.searchsorted(A.view(_np.ndarray).astype(float), deep_strip(v), side=side))
+    elems = list(A.view(_np.ndarray).ravel())
+
+    def one(val):
+        c = 0
+        for e in elems:
+            below = (lift(e) < val) if side == "left" else (lift(e) <= val)
+            c = c + If(below, 1, 0)
+        return c
+
+    if isinstance(v, (SR, SB)) or _np.ndim(v) == 0:
+        return one(v if isinstance(v, (SR, SB)) else (v.item() if isinstance(v, _np.ndarray) else v))
+    V = _A(v).view(_np.ndarray)
+    out = _np.empty(V.shape, dtype=object)
+    for idx in _np.ndindex(V.shape):
+        out[idx] = one(V[idx])
+    return out.view(SymArray)
+
+
 @override("flatnonzero")
 def flatnonzero(a):
     return nonzero(_A(a).ravel())[0]
